@@ -22,19 +22,25 @@ var durationType = reflect.TypeOf(time.Duration(0))
 // declared by ts) into a time.Time. The result is in UTC if ts.TimeZone is
 // non-empty, otherwise it is also UTC but the caller's interpretation may
 // treat it as naive.
+//
+// The conversion must not go through time.Duration: that is an int64
+// nanosecond count, so scaling a microsecond (or coarser) value into it
+// overflows for any instant more than ~292 years from 1970 — year 1 and year
+// 9999 included — and the timestamp decodes to an unrelated instant. The
+// time.Unix* constructors split the value into seconds and a sub-second
+// remainder instead and cover the full int64 microsecond range.
 func timestampToTime(v int64, ts *arrow.TimestampType) time.Time {
-	var d time.Duration
 	switch ts.Unit {
 	case arrow.Second:
-		d = time.Duration(v) * time.Second
+		return time.Unix(v, 0).UTC()
 	case arrow.Millisecond:
-		d = time.Duration(v) * time.Millisecond
+		return time.UnixMilli(v).UTC()
 	case arrow.Microsecond:
-		d = time.Duration(v) * time.Microsecond
+		return time.UnixMicro(v).UTC()
 	case arrow.Nanosecond:
-		d = time.Duration(v)
+		return time.Unix(0, v).UTC()
 	}
-	return time.Unix(0, 0).UTC().Add(d)
+	return time.Unix(0, 0).UTC()
 }
 
 func setTimeField(field reflect.Value, fieldType reflect.Type, isPtr bool, val time.Time) {
